@@ -27,6 +27,7 @@ RULE = (
     "model; size == sum, descriptor.sectors == sum, number of opened disks == number of data-bearing extents declared, "
     "per-extent sector offsets. Non-trivial = >= 2 extents of >= 2 kinds and a request straddling an extent boundary."
 )
+RULE += ' Round 10: flat extents that begin like a sparse extent or a descriptor; FLAT lines with a start offset behind other data; ZERO lines with a sector count; content flavours.'
 ASSUMPTIONS = [
     "ZERO / VMFSRDM / VMFSRAW extent types are not generated (the statement lists FLAT, VMFS, SPARSE, VMFSSPARSE, SESPARSE)",
     "FLAT extents use start offset 0",
